@@ -588,10 +588,35 @@ fn probe_due() -> (bool, bool) {
     })
 }
 
+thread_local! {
+    static CTORS: std::cell::Cell<(u64, u32)> = const { std::cell::Cell::new((0, 0)) };
+}
+
+fn set_ctor_forms(mask: u64) {
+    CTORS.with(|p| p.set((mask, 0)));
+}
+
+/// Which constructor form the next builder uses: `X::builder(..)` (false, canonical) or its
+/// public sibling (`XBuilder::new(..)` / `XBuilder::default()`).
+fn alt_ctor() -> bool {
+    CTORS.with(|p| {
+        let (m, c) = p.get();
+        if m == 0 {
+            return false;
+        }
+        p.set((m, c.wrapping_add(1)));
+        (m >> (c % 64)) & 1 == 1
+    })
+}
+
 fn probe<W: RtcpPacketWriter>(w: &W) {
     let (size, write) = probe_due();
     if size {
         let _ = crate::guard::guarded(|| w.calculate_size().is_ok());
+        if !write {
+            // RtcpPacketWriter: Debug — rendering an unfinished builder is an observation too
+            let _ = crate::guard::guarded(|| format!("{w:?}").len());
+        }
         if write {
             let mut scratch = [0u8; 192];
             let _ = crate::guard::guarded(|| w.write_into(&mut scratch).is_ok());
@@ -617,7 +642,7 @@ pub enum FciAny<'a> {
 }
 
 fn build_nack(v: &[u16]) -> NackBuilder {
-    let mut b = Nack::builder();
+    let mut b = if alt_ctor() { NackBuilder::default() } else { Nack::builder() };
     for s in v {
         b = b.add_rtp_sequence(*s);
         probe(&b);
@@ -625,7 +650,7 @@ fn build_nack(v: &[u16]) -> NackBuilder {
     b
 }
 fn build_fir(v: &[(u32, u8)]) -> FirBuilder {
-    let mut b = Fir::builder();
+    let mut b = if alt_ctor() { FirBuilder::default() } else { Fir::builder() };
     for (s, q) in v {
         b = b.add_ssrc(*s, *q);
         if v.len() <= 64 {
@@ -643,7 +668,7 @@ fn build_sli(v: &[(u16, u16, u8)]) -> SliBuilder {
     b
 }
 fn build_rpsi<'a>(steps: &'a [RpsiStep]) -> RpsiBuilder<'a> {
-    let mut b: RpsiBuilder<'a> = Rpsi::builder();
+    let mut b: RpsiBuilder<'a> = if alt_ctor() { RpsiBuilder::default() } else { Rpsi::builder() };
     for s in steps {
         b = match s {
             RpsiStep::Pt(v) => b.payload_type(*v),
@@ -661,7 +686,7 @@ fn build_rpsi<'a>(steps: &'a [RpsiStep]) -> RpsiBuilder<'a> {
 /// Same history, but every data call uses an owning form so that the result is 'static
 /// (required by `builder_owned`).
 fn build_rpsi_static(steps: &[RpsiStep]) -> RpsiBuilder<'static> {
-    let mut b: RpsiBuilder<'static> = Rpsi::builder();
+    let mut b: RpsiBuilder<'static> = if alt_ctor() { RpsiBuilder::default() } else { Rpsi::builder() };
     for s in steps {
         b = match s {
             RpsiStep::Pt(v) => b.payload_type(*v),
@@ -722,7 +747,7 @@ pub enum Concrete<'a> {
 }
 
 fn build_rb(p: &RbPlan) -> ReportBlockBuilder {
-    let mut b = ReportBlock::builder(p.ssrc);
+    let mut b = if alt_ctor() { ReportBlockBuilder::new(p.ssrc) } else { ReportBlock::builder(p.ssrc) };
     for (f, v) in &p.calls {
         b = match f {
             0 => b.fraction_lost(*v as u8),
@@ -754,7 +779,7 @@ fn build_item<'a>(p: &'a ItemPlan) -> SdesItemBuilder<'a> {
 }
 
 fn build_chunk<'a>(p: &'a ChunkPlan) -> SdesChunkBuilder<'a> {
-    let mut c = SdesChunk::builder(p.ssrc);
+    let mut c = if alt_ctor() { SdesChunkBuilder::new(p.ssrc) } else { SdesChunk::builder(p.ssrc) };
     for (i, owned) in &p.items {
         c = if *owned { c.add_item_owned(build_item(i)) } else { c.add_item(build_item(i)) };
         probe_chunk(&c);
@@ -793,7 +818,7 @@ fn build_packet<'a>(pp: &'a PacketPlan, fcis: &'a [FciAny<'a>], next_fci: &mut u
             Concrete::Rr(b)
         }
         Ctor::Sdes => {
-            let mut b = Sdes::builder();
+            let mut b = if alt_ctor() { SdesBuilder::default() } else { Sdes::builder() };
             for op in &pp.ops {
                 b = match op {
                     Op::Padding(v) => b.padding(*v),
@@ -842,7 +867,7 @@ fn build_packet<'a>(pp: &'a PacketPlan, fcis: &'a [FciAny<'a>], next_fci: &mut u
             Concrete::App(b)
         }
         Ctor::Unknown(pt, data) => {
-            let mut b = Unknown::builder(*pt, data.as_slice());
+            let mut b = if alt_ctor() { UnknownBuilder::new(*pt, data.as_slice()) } else { Unknown::builder(*pt, data.as_slice()) };
             for op in &pp.ops {
                 b = match op {
                     Op::Padding(v) => b.padding(*v),
@@ -922,7 +947,7 @@ fn build<'a>(p: &'a Plan, fcis: &'a [FciAny<'a>], next_fci: &mut usize) -> Concr
         },
         Plan::Third { pt, count, ssrc, payload, padding } => Concrete::Third(ThirdW { pt: *pt, count: *count, ssrc: *ssrc, payload, padding: *padding }),
         Plan::Compound(ms) => {
-            let mut cb = Compound::builder();
+            let mut cb = if alt_ctor() { CompoundBuilder::default() } else { Compound::builder() };
             for m in ms {
                 cb = match build(m, fcis, next_fci) {
                     Concrete::Sr(b) => cb.add_packet(b),
@@ -1024,12 +1049,20 @@ pub fn realise<R>(p: &Plan, hash_key: u64, f: impl FnOnce(&Concrete<'_>) -> R) -
 /// As `realise`, with observation probes (size queries / scratch writes on the unfinished
 /// builders) at the positions of `probe_mask` between the configuration calls.
 pub fn realise_probed<R>(p: &Plan, hash_key: u64, probe_mask: u64, f: impl FnOnce(&Concrete<'_>) -> R) -> R {
+    realise_with(p, hash_key, probe_mask, 0, f)
+}
+
+/// As `realise_probed`, plus a mask choosing, per constructed builder, between `X::builder(..)`
+/// and its public sibling constructor (`XBuilder::new(..)` / `XBuilder::default()`).
+pub fn realise_with<R>(p: &Plan, hash_key: u64, probe_mask: u64, ctor_mask: u64, f: impl FnOnce(&Concrete<'_>) -> R) -> R {
     rtcp_types::verif_hooks::set_hash_seed(hash_key);
+    set_ctor_forms(ctor_mask);
     set_probes(probe_mask);
     let mut arena = Vec::new();
     collect_fcis(p, &mut arena);
     let mut next = 0usize;
     let c = build(p, &arena, &mut next);
     set_probes(0);
+    set_ctor_forms(0);
     f(&c)
 }
